@@ -52,7 +52,7 @@ def generate(seed, tier):
     genome = tw.genome(w)
     frags = tw.library(w, genome, method)
     if w.random() < 0.03:
-        genome, frags = tw.many_small_contigs(w, method)
+        genome, frags = tw.many_small_contigs(w, method, n=w.choice([None, None, None, w.randint(205, 260)]))
     if method == 'qflag' and w.random() < 0.5:
         for f in frags:
             if f['defect'] in (None, 'r2unmapped', 'orphan_r1', 'qcfail'):
